@@ -419,3 +419,59 @@ func TestVerifBounded_C17_ManagerHealthyUnreachable(t *testing.T) {
 		t.Fatalf("%d mismatches", fails)
 	}
 }
+
+// A listener registered while the service is Stopping (one more transition is still to come) sees that transition.
+func TestVerifBounded_C17_ListenerAddedWhileStopping(t *testing.T) {
+	cases, fails := 0, 0
+	for _, stopErr := range []bool{false, true} {
+		cases++
+		release := make(chan struct{})
+		s := NewBasicService(nil, func(ctx context.Context) error { <-ctx.Done(); return nil }, func(error) error {
+			<-release
+			if stopErr {
+				return errors.New("stop failed")
+			}
+			return nil
+		})
+		_ = s.StartAsync(context.Background())
+		_ = s.AwaitRunning(context.Background())
+		s.StopAsync()
+		deadline := time.Now().Add(2 * time.Second)
+		for s.State() != Stopping && time.Now().Before(deadline) {
+			time.Sleep(time.Millisecond)
+		}
+		r := &verifRec{}
+		s.AddListener(verifListener{r})
+		close(release)
+		ctx, cancel := context.WithTimeout(context.Background(), 2*time.Second)
+		_ = s.AwaitTerminated(ctx)
+		cancel()
+		want := "L:Terminated<-Stopping"
+		if stopErr {
+			want = "L:Failed<-Stopping"
+		}
+		ok := false
+		for w := 0; w < 500 && !ok; w++ {
+			r.mu.Lock()
+			for _, e := range r.ev {
+				if e == want {
+					ok = true
+				}
+			}
+			r.mu.Unlock()
+			if !ok {
+				time.Sleep(time.Millisecond)
+			}
+		}
+		if !ok {
+			fails++
+			r.mu.Lock()
+			fmt.Printf("BOUNDED-VIOLATION case=c17-listener-added-while-stopping:stopErr=%v the listener was registered in state Stopping and never saw %q; it saw %v\n", stopErr, want, r.ev)
+			r.mu.Unlock()
+		}
+	}
+	fmt.Printf("BOUNDED-CASES name=C17_ListenerWhileStopping n=%d distinct=%d bound=listener added while the stopping function runs (stop succeeds / fails)\n", cases, cases)
+	if fails > 0 {
+		t.Fatalf("%d violations", fails)
+	}
+}
